@@ -30,3 +30,11 @@ func c20Extra(r *Run) error {
 		"every sequence of up to 2 (thorough: 3) builder calls out of Authentication(true/false), Permissions(a), Permissions(b), Permissions(), LightWeight(true/false): 57 (400) routes x 15 header forms (none; valid tokens of 5 users; tampered after the genuine one was cached; expired; revoked; garbage; JWT-shaped; malformed / colon-less / empty-password Basic; unknown scheme) plus 5 password forms")
 	return nil
 }
+
+// c29Extra: the broadcast reads the membership itself, at the time of the purge, and is the only sender of flushes.
+func c29Extra(r *Run) error {
+	cl := modInternal + "server/cluster"
+	r.census("C29/active-members-read-census", cl+".ListActiveMembers", 0, "", cl+".BroadcastCacheFlush", cl+".StartHealthChecker")
+	r.census("C29/flush-send-census", cl+".SendCacheFlush", 0, "", cl+".BroadcastCacheFlush")
+	return nil
+}
